@@ -134,7 +134,7 @@ pub fn judge(_part: &str, case: &Case, tally: &mut Tally) -> Verdict {
     Verdict::Pass
 }
 
-fn gen_history(src: &mut Src) -> (Case, G) {
+pub fn gen_history(src: &mut Src) -> (Case, G) {
     let (cols, rows) = gen::small_size(src);
     let mut g = G::new(cols, rows);
     g.inert = false;
@@ -149,7 +149,7 @@ fn gen_history(src: &mut Src) -> (Case, G) {
     (case, g)
 }
 
-fn gen_case(src: &mut Src, _i: usize) -> Case {
+pub fn gen_case(src: &mut Src, _i: usize) -> Case {
     let (mut case, g) = gen_history(src);
     let n = src.range(1, 3);
     let mut tail = vec![];
@@ -162,7 +162,7 @@ fn gen_case(src: &mut Src, _i: usize) -> Case {
 }
 
 /// long payloads (0-200 characters) in every string kind
-fn gen_long_payload(src: &mut Src, _i: usize) -> Case {
+pub fn gen_long_payload(src: &mut Src, _i: usize) -> Case {
     let (mut case, _g) = gen_history(src);
     let kind = src.below(5);
     let c1 = src.chance(1, 2);
